@@ -201,6 +201,10 @@ func c08Run(cfg c08Cfg, plan c08Plan) c08Out {
 	if snapPanic {
 		return out
 	}
+	if len(s.shadowViol) > 0 {
+		add("not-durable", s.shadowViol[0]+"; history: "+s.history())
+		return out
+	}
 	if plan.At >= 0 && !crashed {
 		// the planned opportunity does not exist in this run
 		return out
